@@ -809,6 +809,52 @@ func c03Generate(e *c03Env, rnd *vh.Rand) error {
 		}
 	}
 	lap("H reused reader")
+	// I. an object of the OTHER format under the same id: <id> next to a store configured
+	// compressed, <id>.cacnk next to one configured uncompressed, while the own-format object is
+	// absent (or, as a control, intact).  Wrong-hash raw bytes, another chunk's valid object, the
+	// right bytes, garbage.  Every leaf backend, both configurations, bare and behind the wrappers.
+	for _, kind := range leafKinds {
+		for _, unc := range []bool{false, true} {
+			for _, content := range []string{"wrong-raw", "other-valid", "right-bytes", "garbage", "other-zstd"} {
+				for _, own := range []string{"missing", "good"} {
+					if own == "good" && !thorough && g.rnd.Chance(2, 3) {
+						continue
+					}
+					for _, wi := range pickWraps() {
+						g.reset()
+						digest := g.setDigest()
+						lf := g.leaf(kind, unc, false)
+						st := wraps[wi](lf)
+						d, d2 := g.chunkPair()
+						var obj []byte
+						switch content {
+						case "wrong-raw":
+							obj = d2
+						case "other-valid": // a valid object of another chunk in the OTHER format
+							obj = c03Enc(d2, !unc)
+						case "right-bytes": // this chunk, validly stored in the other format
+							obj = c03Enc(d, !unc)
+						case "garbage":
+							obj = g.rnd.Bytes(1 + g.rnd.Intn(60))
+						case "other-zstd":
+							obj = c03Enc(d2, false)
+						}
+						c := g.mk(fmt.Sprintf("other-format/%s/unc=%v/%s/own-%s/w%d", kind, unc, content, own, wi), digest, st, d, d2, func(l c03Leaf) string {
+							if l.k == lf.K {
+								return own
+							}
+							return "missing"
+						}, nil)
+						c.Others = append(c.Others, c03Slot{K: lf.K, ID: c03ID(d), Obj: vh.Hex(obj), Kind: content})
+						if err := g.run(c); err != nil {
+							return err
+						}
+					}
+				}
+			}
+		}
+	}
+	lap("I other-format objects")
 	return nil
 }
 
